@@ -432,7 +432,9 @@ func (k *c20Pkg) flowsTo(seeds ...ssa.Value) *c20Flow {
 }
 
 // c20Roles: the constructs of context.Pool the rules talk about, resolved
-// through types (field names are not used).
+// through types (field names are not used). Fields are looked for in Pool
+// itself and in the struct-typed fields of Pool declared in the same package
+// or anonymously (fields grouped into a sub-struct, by value or by pointer).
 type c20Roles struct {
 	PoolType string  // "pkgpath.Pool"
 	Lock     FieldID // the sync.RWMutex / sync.Mutex field
@@ -441,6 +443,14 @@ type c20Roles struct {
 	Closed   FieldID // the channel field (closed by Cancel)
 	Ctx      FieldID // the embedded context.Context
 	MemberT  types.Type
+	Chans    []FieldID // all channel fields
+	Flags    []FieldID // boolean fields (a "cancelled" flag may stand in for members == nil)
+}
+
+type c20Field struct {
+	id     FieldID
+	lockID string
+	v      *types.Var
 }
 
 // resolveC20Roles resolves the roles or reports why it cannot.
@@ -450,30 +460,57 @@ func resolveC20Roles(p *Prog) (*c20Roles, string) {
 	if !ok {
 		return nil, "context.Pool is no longer a struct"
 	}
+	pkgPath := named.Obj().Pkg().Path()
 	ro := &c20Roles{PoolType: p.ModPath + "/context.Pool"}
-	var locks, slices, chans, ctxs []*types.Var
-	for i := 0; i < st.NumFields(); i++ {
-		f := st.Field(i)
-		t := f.Type()
-		switch namedKey(t) {
-		case "sync.RWMutex", "sync.Mutex":
-			locks = append(locks, f)
-			continue
-		case "context.Context":
-			if f.Embedded() {
-				ctxs = append(ctxs, f)
+	var locks, slices, chans, ctxs, flags []c20Field
+	var walk func(st *types.Struct, owner, prefix string, depth int)
+	walk = func(st *types.Struct, owner, prefix string, depth int) {
+		for i := 0; i < st.NumFields(); i++ {
+			f := st.Field(i)
+			t := f.Type()
+			base := owner
+			if base == "" {
+				base = prefix
 			}
-			continue
-		}
-		switch u := t.Underlying().(type) {
-		case *types.Slice:
-			if _, ok := u.Elem().Underlying().(*types.Chan); ok {
-				slices = append(slices, f)
+			cf := c20Field{id: FieldID{owner, f.Name()}, lockID: base + "." + f.Name(), v: f}
+			switch namedKey(t) {
+			case "sync.RWMutex", "sync.Mutex":
+				locks = append(locks, cf)
+				continue
+			case "context.Context":
+				if f.Embedded() {
+					ctxs = append(ctxs, cf)
+				}
+				continue
 			}
-		case *types.Chan:
-			chans = append(chans, f)
+			switch u := t.Underlying().(type) {
+			case *types.Slice:
+				if _, ok := u.Elem().Underlying().(*types.Chan); ok {
+					slices = append(slices, cf)
+				}
+				continue
+			case *types.Chan:
+				chans = append(chans, cf)
+				continue
+			case *types.Basic:
+				if u.Kind() == types.Bool {
+					flags = append(flags, cf)
+				}
+				continue
+			}
+			// a sub-struct of this package (or an anonymous one), by value or by pointer
+			inner := structOf(t)
+			if inner == nil || depth >= 3 {
+				continue
+			}
+			key := namedKey(t)
+			if n, isNamed := deref(t).(*types.Named); isNamed && (n.Obj().Pkg() == nil || n.Obj().Pkg().Path() != pkgPath) {
+				continue
+			}
+			walk(inner, key, cf.lockID, depth+1)
 		}
 	}
+	walk(st, ro.PoolType, ro.PoolType, 0)
 	if len(locks) != 1 {
 		return nil, "context.Pool does not have exactly one sync.(RW)Mutex field"
 	}
@@ -486,13 +523,19 @@ func resolveC20Roles(p *Prog) (*c20Roles, string) {
 	if len(chans) == 0 {
 		return nil, "context.Pool has no channel field (the Cancel signal)"
 	}
-	ro.Lock = FieldID{ro.PoolType, locks[0].Name()}
-	ro.LockID = ro.PoolType + "." + locks[0].Name()
-	ro.Members = FieldID{ro.PoolType, slices[0].Name()}
-	ro.MemberT = slices[0].Type()
-	ro.Ctx = FieldID{ro.PoolType, ctxs[0].Name()}
+	ro.Lock = locks[0].id
+	ro.LockID = locks[0].lockID
+	ro.Members = slices[0].id
+	ro.MemberT = slices[0].v.Type()
+	ro.Ctx = ctxs[0].id
+	for _, c := range chans {
+		ro.Chans = append(ro.Chans, c.id)
+	}
+	for _, f := range flags {
+		ro.Flags = append(ro.Flags, f.id)
+	}
 	if len(chans) == 1 {
-		ro.Closed = FieldID{ro.PoolType, chans[0].Name()}
+		ro.Closed = chans[0].id
 	}
 	return ro, ""
 }
